@@ -355,6 +355,7 @@ impl Drv {
             self.last.clear();
             return;
         };
+        crate::hang::set_program(&self.cfg_line, &self.lines);
         it.exec(line);
         self.last = it.take_trace();
         for l in self.last.lines() {
@@ -657,6 +658,7 @@ impl Out {
     }
 
     fn write(&mut self, name: &str, text: &str) {
+        crate::hang::beat();
         self.files += 1;
         self.stats.programs += 1;
         self.stats.hashes.insert(fnv(text.split_once('\n').map(|p| p.1).unwrap_or(text)));
